@@ -228,14 +228,7 @@ func (st *shareState) onProcessed(r *WireResp) {
 				for _, a := range p.AcquiredRecords {
 					for o := a.FirstOffset; o <= a.LastOffset; o++ {
 						if old := m[o]; old != nil && old.archived && faultFree {
-							// Observed on the unchanged tree in about 1 % of the
-							// runs (a share session reset follows; see DESIGN.md
-							// section 13, "open"): whether the accept had really
-							// been applied cannot be told from the wire alone
-							// (acknowledgement verdicts are per partition), so
-							// this is counted, not judged.
-							s.Probe("acquired_again_after_final_applied")
-							s.Logf("NOTE %s offset %d acquired by %s (delivery %d) after %s's %s of it was answered without error", tp, o, r.Conn.Client, a.DeliveryCount, old.member, ackName(old.final))
+							s.Violf("C12/redelivered-after-final", "%s offset %d was acquired by %s (delivery %d) although the broker had answered %s's %s of it without error", tp, o, r.Conn.Client, a.DeliveryCount, old.member, ackName(old.final))
 						}
 						m[o] = &shAcq{member: r.Conn.Client, delivery: a.DeliveryCount, open: true}
 						st.acqCount[fmt.Sprintf("%s|%s|%d", r.Conn.Client, tp, o)]++
